@@ -25,6 +25,8 @@ static const op_t ALPHA[] = {
 	{ 'G', I, "a", 0, 0, 0 }, { 'G', S, "a", 0, 0, 0 }, { 'G', B, "a", 0, 0, 0 }, { 'G', J, "a", 0, 0, 0 }, { 'G', J, NULL, 0, 0, 0 },
 	{ 'G', I, "b", 0, 0, 0 }, { 'G', S, "c", 0, 0, 0 }, { 'G', B, "b", 0, 0, 0 }, { 'G', J, "b", 0, 0, 0 }, { 'G', I, "", 0, 0, 0 },
 	{ 'D', 0, "a", 0, 0, 0 }, { 'D', 0, "b", 0, 0, 0 }, { 'D', 0, NULL, 0, 0, 0 }, { 'D', 0, "", 0, 0, 0 }, { 'D', 0, "c", 0, 0, 0 },
+	/* a registered name holding a one-element array (RFC 7519 allows aud in both shapes): typed reads stay type-strict */
+	{ 'S', J, "aud", "[\"x\"]", 0, 1 }, { 'G', S, "aud", 0, 0, 0 }, { 'G', J, "aud", 0, 0, 0 },
 };
 #define NALPHA ((int)(sizeof(ALPHA) / sizeof(ALPHA[0])))
 
@@ -137,16 +139,20 @@ static void do_op(const tgt_t *t, const op_t *op)
 static char bigstr[70000];
 static void random_op(op_t *op)
 {
-	static const char *NAMES[] = { "a", "b", "c", "exp", "a b", "\xc3\xa9", "", NULL, "alg", "nested", "r", "t", "n", "i" };
+	static const char *NAMES[] = { "a", "b", "c", "exp", "a b", "\xc3\xa9", "", NULL, "alg", "nested", "r", "t", "n", "i",
+		"aud", "iss", "sub", "jti", "kid", "typ", "nbf", "iat", "crit", "cty" };	/* registered names: no name gets a typed read of its own */
+#define NNAMES 24
 	static const char *JS[] = { "{\"a\":1}", "{\"b\":{\"c\":[1,2,{\"d\":null}]},\"a\":\"s\"}", "[]", "[1,\"two\",3.5]", "{}", "{\"r\":1.5,\"t\":true,\"n\":null}",
 		"{\"a\":9223372036854775807,\"b\":-9223372036854775808}", "{", "", "nul", "5", "\"s\"", "{\"x\":1,\"x\":2}", "{\"a\":{\"a\":{\"a\":{}}}}",
 		"{\"exp\":1,\"alg\":\"none\"}", "[[[[[[]]]]]]", "{\"a\":1} x", " {\"c\":2} ",
-		"{\"r\":1.0,\"i\":3,\"t\":false,\"n\":null}", "{\"r\":-0.0,\"n\":[],\"i\":\"3\"}", "{\"t\":1,\"r\":1e2,\"i\":0}", "{\"\":\"empty-name\",\"a\":{\"\":[]}}" };
+		"{\"r\":1.0,\"i\":3,\"t\":false,\"n\":null}", "{\"r\":-0.0,\"n\":[],\"i\":\"3\"}", "{\"t\":1,\"r\":1e2,\"i\":0}", "{\"\":\"empty-name\",\"a\":{\"\":[]}}",
+		"[\"x\"]", "[\"x\",\"y\"]", "[7]", "[true]", "{\"aud\":[\"x\"],\"iss\":[\"me\"],\"kid\":[\"k\"],\"exp\":[1],\"typ\":[\"JWT\"]}", "{\"aud\":\"x\",\"sub\":7,\"jti\":true,\"iat\":\"1\"}" };
+#define NJS 28
 	static const long INTS[] = { 0, 1, -1, INT64_MAX, INT64_MIN, 2147483648L, 1700000000L };
 	static const char *STRS[] = { "", "x", "a longer string value", "\xc3\xa9\xf0\x9f\x98\x80", "with \"quotes\" and \\ backslash", "line\nbreak\ttab", NULL, bigstr };
 	unsigned k = (unsigned)vh_below(&rng, 10);
 	memset(op, 0, sizeof(*op));
-	op->name = NAMES[vh_below(&rng, 14)];
+	op->name = NAMES[vh_below(&rng, NNAMES)];
 	if (vh_below(&rng, 3)) op->name = NAMES[vh_below(&rng, 3)];	/* collide often */
 	op->replace = (int)vh_below(&rng, 2);
 	if (k < 5) {
@@ -156,7 +162,7 @@ static void random_op(op_t *op)
 		case I: op->ival = vh_below(&rng, 2) ? INTS[vh_below(&rng, 7)] : (long)vh_rand(&rng); break;
 		case S: op->sval = STRS[vh_below(&rng, 7)]; if (vh_below(&rng, 64) == 0) op->sval = bigstr; break;
 		case B: { static const long BV[] = { 0, 1, 0, 1, 2, -1, 256, 65536, INT32_MIN }; op->ival = BV[vh_below(&rng, 9)]; } break;
-		default: op->sval = JS[vh_below(&rng, 22)]; break;
+		default: op->sval = JS[vh_below(&rng, NJS)]; break;
 		}
 	} else if (k < 8) {
 		op->kind = 'G';
